@@ -893,7 +893,11 @@ def reuse(ctx, block):
             bad = None
             for i, (e, tol) in enumerate(exp):
                 o = ol[i]
-                ok = (o == o) and ((Fraction(o) == e) if tol == 0 else abs(mp.mpf(o) - mp.mpf(float(e)) if isinstance(e, Fraction) else mp.mpf(o) - e) <= tol + (abs(float(e)) * 2 ** -52 if isinstance(e, Fraction) else 0))
+                if tol == 0:
+                    ok = o == o and Fraction(o) == e
+                else:
+                    ev = mp.mpf(e.numerator) / e.denominator if isinstance(e, Fraction) else e
+                    ok = o == o and abs(mp.mpf(o) - ev) <= tol
                 if not ok:
                     bad = i
                     break
